@@ -421,6 +421,7 @@ class Explorer:
         self.truncated = False
         self.inconclusive_paths = 0
         self.deadline = deadline
+        self.concrete_env = None
         self._known0 = {}
         for a in self.assumptions:
             self._note(self._known0, a)
@@ -498,6 +499,10 @@ class Explorer:
         i = len(self.trace)
         if i < len(self.prefix):
             d = bool(self.prefix[i])
+        elif self.concrete_env is not None:
+            # translator validation: inputs are pinned, every condition is decided by evaluation (exact meaning of SQ/SQRT/...)
+            from . import validate
+            d = bool(validate.eval_term(cond, self.concrete_env))
         else:
             if self._check(cond):
                 if self._check(z3.Not(cond)):
